@@ -21,6 +21,10 @@ pub struct Case {
     pub workers: u8,
     /// Perturbation bytes for the second replay.
     pub perturb: Vec<u8>,
+    /// If set, every delete/gc step has one failing block removal: the i-th (of the sorted
+    /// list) block that the delete is going to remove, the same path in both replays.
+    #[serde(default)]
+    pub fail_block_removal: Option<u16>,
 }
 
 fn strategy(tier: Tier) -> BoxedStrategy<Case> {
@@ -30,8 +34,9 @@ fn strategy(tier: Tier) -> BoxedStrategy<Case> {
         history_strategy(cfg),
         prop::sample::select(vec![1u8, 2, 4]),
         prop::collection::vec(any::<u8>(), 0..24),
+        prop::option::weighted(0.3, any::<u16>()),
     )
-        .prop_map(|(hist, workers, perturb)| Case { hist, workers, perturb })
+        .prop_map(|(hist, workers, perturb, fail_block_removal)| Case { hist, workers, perturb, fail_block_removal })
         .boxed()
 }
 
@@ -91,6 +96,66 @@ fn run(case: &Case, cx: &mut Cx) -> CaseResult {
     let mut evals = 0u64;
     for (i, op) in case.hist.ops.iter().enumerate() {
         let ids_before: Vec<u32> = w.bands.keys().copied().collect();
+        // a faulty delete is performed by hand on both archives
+        if let (Some(frac), Op::Delete { .. } | Op::Gc) = (case.fail_block_removal, op) {
+            let (sel, dry_run) = match op {
+                Op::Delete { sel, dry_run } => (sel.clone(), *dry_run),
+                _ => (vec![], false),
+            };
+            let mut requested: Vec<u32> = sel
+                .iter()
+                .filter(|_| !ids_before.is_empty())
+                .map(|i| ids_before[(*i as usize * ids_before.len()) >> 16])
+                .collect();
+            requested.sort();
+            requested.dedup();
+            let pre = format::scan(&w.arch);
+            let kept: Vec<u32> = ids_before.iter().copied().filter(|b| !requested.contains(b)).collect();
+            let referenced = pre.referenced_hashes(kept.iter().copied());
+            let doomed: Vec<String> = pre
+                .blocks
+                .iter()
+                .filter(|(h, b)| b.file_len > 0 && !referenced.contains(*h))
+                .map(|(_, b)| b.relpath.clone())
+                .collect();
+            let plan = |_: ()| match doomed.is_empty() {
+                true => Plan::None,
+                false => Plan::FailAtKey {
+                    key: crate::hooks::Key {
+                        verb: crate::hooks::V::RemoveFile,
+                        path: doomed[(frac as usize * doomed.len()) >> 16].clone(),
+                        occ: 0,
+                    },
+                    kind: crate::hooks::Kind::Other,
+                },
+            };
+            let ctl_a = Ctl::new(&w.arch, plan(()));
+            let hook_a: Hook = Some(ctl_a as Arc<dyn conserve::transport::verif::Interceptor>);
+            let ra = ops::delete_bands(&w.arch, &hook_a, &requested, dry_run, false);
+            ensure!(ra.panic.is_none(), "C17/delete-panic", "step {i} replay A: {}", ra.describe());
+            if ra.is_ok() && !dry_run {
+                for id in &requested {
+                    w.bands.remove(id);
+                }
+            }
+            let ctl_b = Ctl::new_unserialized(&arch_b, plan(()), case.perturb.clone());
+            let hook_b: Hook = Some(ctl_b as Arc<dyn conserve::transport::verif::Interceptor>);
+            let rb = ops::delete_bands_rt(rt_b, &arch_b, &hook_b, &requested, dry_run, false);
+            ensure!(rb.panic.is_none(), "C17/delete-panic", "step {i} replay B: {}", rb.describe());
+            ensure!(
+                ra.result.is_ok() == rb.result.is_ok(),
+                "C17/outcome-differs",
+                "step {i}: delete with a failing block removal: A {} / B {}",
+                ra.describe(),
+                rb.describe()
+            );
+            let a = format::raw_tree(&w.arch);
+            let b = format::raw_tree(&arch_b);
+            compare(&a, &b, i)?;
+            evals += 1;
+            cx.label("delete-with-failing-block-removal");
+            continue;
+        }
         let step = w.apply(op);
         // replay the same operation on B with another runtime flavour and perturbed timing
         match (&step, op) {
@@ -141,7 +206,7 @@ pub fn prop() -> Prop<Case> {
     Prop {
         id: "C17",
         level: "exploration",
-        rule: "case = (history as C02 with <=10 ops quick / <=20 thorough, worker count in {1,2,4}, 0-23 perturbation bytes). Every step is applied to the one source and then to two fresh archives: A on a current-thread runtime with serialized storage operations, B on a multi-thread runtime with that many workers, storage operations not serialized (conserve's concurrent listing/validation tasks really overlap) and each preceded by a yield/sleep chosen by the perturbation bytes; interruptions are addressed by the ordinal of the mutating operation in both. After every archive operation the two directories must have the same relative file set and byte-identical contents, except that start_time is removed from parsed BANDHEADs and end_time from parsed BANDTAILs. Non-trivial = >=2 backups, some band with >=2 hunks and some combined block; distinct by case hash; evaluations = archive-state comparisons",
+        rule: "case = (history as C02 with <=10 ops quick / <=20 thorough, worker count in {1,2,4}, 0-23 perturbation bytes). Every step is applied to the one source and then to two fresh archives: A on a current-thread runtime with serialized storage operations, B on a multi-thread runtime with that many workers, storage operations not serialized (conserve's concurrent listing/validation tasks really overlap) and each preceded by a yield/sleep chosen by the perturbation bytes; interruptions are addressed by the ordinal of the mutating operation in both; in 30% of cases every delete/gc step additionally has one failing block removal, addressed by path (the i-th of the sorted blocks the delete is about to remove), identical in both replays. After every archive operation the two directories must have the same relative file set and byte-identical contents, except that start_time is removed from parsed BANDHEADs and end_time from parsed BANDTAILs. Non-trivial = >=2 backups, some band with >=2 hunks and some combined block; distinct by case hash; evaluations = archive-state comparisons",
         assumptions: &[
             "evidence about independence from task scheduling (two runtime flavours + generated perturbations), not a proof over all schedules",
         ],
